@@ -1,8 +1,10 @@
 """C02 -- processor-level property; see proccheck.py / procgen.py / coq/Processor.v / coq/ProcMonitor.v."""
 import proccheck
+import statuscheck
 
 LEVEL = "proof"
 
 
 def run(chk, replay=None):
     proccheck.run(chk, "PropC02", {'failures': 5, 'mixed': 3, 'all_ok': 1}, 140, 3000, [101, 201, 202], replay=replay)
+    statuscheck.run_stage(chk)
